@@ -113,6 +113,28 @@ def run_c02(repo, tier, seed, only=None):
         for _ in range(n_cases(tier, 250, 4000)):
             g = G.Gen(rng, tags=(), int_keys=True)
             cases.append(('tree', [g.map(3, top=True) for _ in range(rng.randint(1, 4))]))
+        # F2: the older value is a LIST, the newer value (a replacing list, or a mapping addressing indices) holds empty containers
+        # at any depth (list merges prune the incoming value with a predicate that is always true for tag-free documents)
+        def val(depth):
+            k = rng.random()
+            if depth <= 0 or k < 0.35:
+                return rng.choice([0, 1, 'v', None])
+            if k < 0.55:
+                return rng.choice([[], {}])
+            if k < 0.8:
+                return [val(depth - 1) for _ in range(rng.randint(0, 3))]
+            return {rng.choice(['x', 'y', 'z']): val(depth - 1) for _ in range(rng.randint(0, 2))}
+        for _ in range(n_cases(tier, 150, 2500)):
+            old = [val(1) for _ in range(rng.randint(1, 3))]
+            if rng.random() < 0.5:
+                new = [val(2) for _ in range(rng.randint(0, 3))]
+            else:
+                new = {i: val(2) for i in rng.sample(range(len(old)), rng.randint(1, len(old)))}
+            docs = [{'a': old}, {'a': new}]
+            if rng.random() < 0.3:
+                docs.insert(0, {'a': 5})
+            import yaml as _y
+            cases.append(('text', [_y.safe_dump(d, default_flow_style=True).strip() for d in docs]))
     for kind, c in cases:
         texts = c if kind == 'text' else [G.render(d) for d in c]
         import yaml
@@ -268,6 +290,26 @@ def run_c04(repo, tier, seed, only=None):
             exp = exp_inner
             for k in reversed(chain):
                 exp = {k: exp}
+            cases.append(([G.render(o), G.render(nw)], exp))
+        # F4: below the deleting node the newer document has a sub-mapping with a priority tag of its own; older entries under it
+        # that the newer document does not restate are compared with THAT sub-mapping (the deepest existing node along their path),
+        # older entries elsewhere with the deleting node itself
+        PR = {'force': 1, 'weak': -1, None: 0}
+        for _ in range(n_cases(tier, 150, 2000)):
+            t_sub = rng.choice([None, 'weak', 'weak', 'force'])
+            olds = {k: (rng.randint(0, 3), rng.choice([None, None, 'force', 'weak'])) for k in rng.sample(['c', 'e', 'g'], rng.randint(1, 3))}
+            f_tag = rng.choice([None, 'force', 'weak'])
+            old = G.mp([('a', G.mp([('b', G.mp([(k, G.leaf(v, t)) for k, (v, t) in olds.items()])), ('f', G.leaf(7, f_tag))]))])
+            new = G.mp([('a', G.mp([('b', G.mp([('d', G.leaf(9))], t_sub))], 'del'))])
+            exp_b = {k: v for k, (v, t) in olds.items() if PR[t] > PR[t_sub]}
+            exp_b['d'] = 9
+            exp_a = {'b': exp_b}
+            if PR[f_tag] > 0:
+                exp_a['f'] = 7
+            chain = rng.sample(G.KEYS[:3], rng.randint(0, 1))
+            o, nw, exp = old, new, {'a': exp_a}
+            for k in reversed(chain):
+                o, nw, exp = G.wrap(o, k), G.wrap(nw, k), {k: exp}
             cases.append(([G.render(o), G.render(nw)], exp))
     else:
         cases = [(only, None)]
